@@ -6,7 +6,7 @@ namespace MV.Lemmas.PubSubFlow
 open MV.Model.PubSub MV.Spec.PubSub MV.Lemmas.PubSub MV.Lemmas.PubSubSys
 
 /-- every effect of every turn the subscription actor has taken, in order -/
-def allEffs (s : Sys) : List Eff := (SubActor.run SubActor.init s.processed).2.flatten
+def allEffs (self : Nat) (s : Sys) : List Eff := (SubActor.run (SubActor.init self) s.processed).2.flatten
 
 /-- everything that was pushed into `r`'s mailbox and not turned into a dead letter: handled ++ queued -/
 def arrived (s : Sys) (r : Ref) : List Delivery := (s.actors r).handled.map (·.2) ++ (s.actors r).mbox
@@ -23,12 +23,12 @@ def toLink : Eff → Option (Nat × Envelope)
   | .tellRemote a t p pub => some (a, { sender := none, msg := .publishRequestBroadcast t p pub true })
   | _ => none
 
-structure Flow (s : Sys) : Prop where
-  saState : s.sa = (SubActor.run SubActor.init s.processed).1
-  acct : ∀ r d, (arrived s r).count d + (lost s r).count d = (deliveriesTo r (allEffs s)).count d
-  order : ∀ r, (arrived s r).Sublist (deliveriesTo r (allEffs s))
+structure Flow (node : Nat) (s : Sys) : Prop where
+  saState : s.sa = (SubActor.run (SubActor.init node) s.processed).1
+  acct : ∀ r d, (arrived s r).count d + (lost s r).count d = (deliveriesTo r (allEffs node s)).count d
+  order : ∀ r, (arrived s r).Sublist (deliveriesTo r (allEffs node s))
   pubs : (s.processed ++ s.saQ).filterMap localPubOf = s.published
-  linkLog : s.link = (allEffs s).filterMap toLink
+  linkLog : s.link = (allEffs node s).filterMap toLink
 
 theorem deliveriesTo_append (r : Ref) (a b : List Eff) :
     deliveriesTo r (a ++ b) = deliveriesTo r a ++ deliveriesTo r b := by
@@ -92,7 +92,7 @@ theorem foldl_flow (effs : List Eff) (s : Sys) (r : Ref) :
     · rw [b4, a4]; simp [List.filterMap_cons]
       cases toLink e <;> simp
 
-theorem flow_init : Flow Sys.init := by
+theorem flow_init (self : Nat) : Flow self (Sys.init self) := by
   constructor
   · rfl
   · intro r d; simp [arrived, lost, allEffs, Sys.init, Actor.none, SubActor.run, deliveriesTo]
@@ -102,14 +102,14 @@ theorem flow_init : Flow Sys.init := by
 
 /-- an action that touches neither the mailboxes of the actors, nor the dead letters, nor what the
     subscription actor has processed; it may append `q` to the subscription actor's mailbox -/
-theorem flow_ctl {s s' : Sys} (hf : Flow s) (q : List Envelope)
+theorem flow_ctl {self : Nat} {s s' : Sys} (hf : Flow self s) (q : List Envelope)
     (hsa : s'.sa = s.sa) (hp : s'.processed = s.processed) (hq : s'.saQ = s.saQ ++ q)
     (hd : s'.dead = s.dead) (hl : s'.link = s.link)
     (ha : ∀ r, (s'.actors r).handled = (s.actors r).handled ∧ (s'.actors r).mbox = (s.actors r).mbox)
-    (hpub : s'.published = s.published ++ q.filterMap localPubOf) : Flow s' := by
+    (hpub : s'.published = s.published ++ q.filterMap localPubOf) : Flow self s' := by
   have harr : ∀ r, arrived s' r = arrived s r := by intro r; simp [arrived, ha r]
   have hlost : ∀ r, lost s' r = lost s r := by intro r; simp [lost, hd]
-  have heffs : allEffs s' = allEffs s := by simp [allEffs, hp]
+  have heffs : allEffs self s' = allEffs self s := by simp [allEffs, hp]
   constructor
   · rw [hsa, hp]; exact hf.saState
   · intro r d; rw [harr, hlost, heffs]; exact hf.acct r d
@@ -131,9 +131,9 @@ theorem unsubs_no_pub (l : List Subscription) : (l.map unsubEnvelope).filterMap 
   | cons x xs ih => simp [List.filterMap_cons, localPubOf, unsubEnvelope, ih]
 
 /-- a terminated actor's mailbox: the head becomes a dead letter -/
-theorem flow_dead {s : Sys} (hf : Flow s) (r : Ref) (d : Delivery) (rest : List Delivery)
+theorem flow_dead {self : Nat} {s : Sys} (hf : Flow self s) (r : Ref) (d : Delivery) (rest : List Delivery)
     (hmb : (s.actors r).mbox = d :: rest) (S : Sys)
-    (hS : S = Sys.setActor { s with dead := s.dead ++ [(r, d)] } r { s.actors r with mbox := rest }) : Flow S := by
+    (hS : S = Sys.setActor { s with dead := s.dead ++ [(r, d)] } r { s.actors r with mbox := rest }) : Flow self S := by
   have e1 : lost S r = lost s r ++ [d] := by subst hS; simp [lost, Sys.setActor, List.filter_append]
   have e1' : ∀ r', r' ≠ r → lost S r' = lost s r' := by
     intro r' h; subst hS
@@ -143,7 +143,7 @@ theorem flow_dead {s : Sys} (hf : Flow s) (r : Ref) (d : Delivery) (rest : List 
   have e2' : ∀ r', r' ≠ r → arrived S r' = arrived s r' := by
     intro r' h; subst hS; simp [arrived, Sys.setActor, h]
   have e3 : arrived s r = (s.actors r).handled.map (·.2) ++ d :: rest := by simp [arrived, hmb]
-  have e4 : allEffs S = allEffs s := by subst hS; rfl
+  have e4 : allEffs self S = allEffs self s := by subst hS; rfl
   constructor
   · subst hS; exact hf.saState
   · intro r' dd
@@ -164,7 +164,7 @@ theorem flow_dead {s : Sys} (hf : Flow s) (r : Ref) (d : Delivery) (rest : List 
   · subst hS; exact hf.pubs
   · subst hS; exact hf.linkLog
 
-theorem flow_step {s : Sys} (hf : Flow s) (a : Act) (ha : Allowed s a) : Flow (s.step a) := by
+theorem flow_step {self : Nat} {s : Sys} (hf : Flow self s) (a : Act) (ha : Allowed s a) : Flow self (s.step a) := by
   cases a with
   | spawn r =>
     simp only [Sys.step]
@@ -232,10 +232,10 @@ theorem flow_step {s : Sys} (hf : Flow s) (a : Act) (ha : Allowed s a) : Flow (s
     split
     · exact hf
     · rename_i e rest hq
-      have hrun : SubActor.run SubActor.init (s.processed ++ [e]) =
-          ((s.sa.step e).1, (SubActor.run SubActor.init s.processed).2 ++ [(s.sa.step e).2]) := by
+      have hrun : SubActor.run (SubActor.init self) (s.processed ++ [e]) =
+          ((s.sa.step e).1, (SubActor.run (SubActor.init self) s.processed).2 ++ [(s.sa.step e).2]) := by
         rw [run_append]; simp only [SubActor.run]; rw [← hf.saState]
-      have heffs : ∀ s' : Sys, s'.processed = s.processed ++ [e] → allEffs s' = allEffs s ++ (s.sa.step e).2 := by
+      have heffs : ∀ s' : Sys, s'.processed = s.processed ++ [e] → allEffs self s' = allEffs self s ++ (s.sa.step e).2 := by
         intro s' hp; simp [allEffs, hp, hrun]
       -- the state the effects are applied to
       generalize hs0 : ({ s with sa := (s.sa.step e).1, saQ := rest, processed := s.processed ++ [e] } : Sys) = s0
@@ -267,9 +267,9 @@ theorem flow_step {s : Sys} (hf : Flow s) (a : Act) (ha : Allowed s a) : Flow (s
       · obtain ⟨_, _, _, b4, _⟩ := foldl_flow (s.sa.step e).2 s0 default
         rw [b4, hE, h0k, hf.linkLog, List.filterMap_append]
 
-theorem flow_reachable {s : Sys} (h : Reachable s) : Flow s := by
+theorem flow_reachable {self : Nat} {s : Sys} (h : Reachable self s) : Flow self s := by
   induction h with
-  | init => exact flow_init
+  | init => exact flow_init self
   | step a _ ha ih => exact flow_step ih a ha
 
 /-! ### two nodes -/
@@ -363,8 +363,8 @@ inductive NReachable : Net → Prop
   | step {n : Net} (a : NAct) : NReachable n → NAllowed n a → NReachable (n.step a)
 
 structure NetInv (n : Net) : Prop where
-  r1 : Reachable n.n1
-  r2 : Reachable n.n2
+  r1 : Reachable 1 n.n1
+  r2 : Reachable 2 n.n2
   le1 : n.sent1 ≤ n.n1.link.length
   le2 : n.sent2 ≤ n.n2.link.length
   recv2 : (n.n2.processed ++ n.n2.saQ).filter isBroadcast =
@@ -372,13 +372,13 @@ structure NetInv (n : Net) : Prop where
   recv1 : (n.n1.processed ++ n.n1.saQ).filter isBroadcast =
     ((n.n2.link.take n.sent2).filter (fun e => e.1 = 1)).map (·.2)
 
-theorem link_broadcast {s : Sys} (h : Reachable s) : ∀ x ∈ s.link, isBroadcast x.2 = true := by
+theorem link_broadcast {self : Nat} {s : Sys} (h : Reachable self s) : ∀ x ∈ s.link, isBroadcast x.2 = true := by
   rw [(flow_reachable h).linkLog]; exact toLink_broadcast _
 
 theorem broadcast_isLink (e : Envelope) (h : isBroadcast e = true) : isLinkMsg e = true := by
   cases hm : e.msg <;> simp_all [isBroadcast, isLinkMsg]
 
-theorem NetInv.intro (n1 n2 : Sys) (s1 s2 : Nat) (r1 : Reachable n1) (r2 : Reachable n2)
+theorem NetInv.intro (n1 n2 : Sys) (s1 s2 : Nat) (r1 : Reachable 1 n1) (r2 : Reachable 2 n2)
     (le1 : s1 ≤ n1.link.length) (le2 : s2 ≤ n2.link.length)
     (recv2 : (n2.processed ++ n2.saQ).filter isBroadcast = ((n1.link.take s1).filter (fun e => e.1 = 2)).map (·.2))
     (recv1 : (n1.processed ++ n1.saQ).filter isBroadcast = ((n2.link.take s2).filter (fun e => e.1 = 1)).map (·.2)) :
